@@ -665,11 +665,11 @@ func (e *Engine) InsertDocument(ctx context.Context, username, collectionName st
 }
 
 func (e *Engine) InsertDocuments(ctx context.Context, username, collectionName string, docs []*structpb.Struct) (txID uint64, docIDs []DocumentID, err error) {
+	// uniqueness is checked against the index: the snapshot must include every committed document and the
+	// check must be validated at commit time (default options), otherwise a stale snapshot admits duplicates
+	// or reports conflicts with entries that are already deleted
 	opts := sql.DefaultTxOptions().
-		WithUnsafeMVCC(true).
-		WithExtra([]byte(username)).
-		WithSnapshotMustIncludeTxID(func(lastPrecommittedTxID uint64) uint64 { return 0 }).
-		WithSnapshotRenewalPeriod(0)
+		WithExtra([]byte(username))
 
 	sqlTx, err := e.sqlEngine.NewTx(ctx, opts)
 	if err != nil {
